@@ -233,6 +233,11 @@ func (tw *textWorld) apply(st textStep) []string {
 			return []string{"compact failed: " + clip(r.Stderr, 200)}
 		}
 		return nil
+	case "redate":
+		// the command just run gets time stamps a day ahead: it ran on a host whose clock is
+		// fast and its lines came over by git. Texts are not a matter of time.
+		redateLastCommand(tw.root, 26*time.Hour)
+		return nil
 	case "other_plan":
 		// an unrelated plan: it rewrites the whole log and must leave every text alone
 		r := Run(Cmd{Args: []string{"--json", "plan"}, Mode: StdinPipe, Stdin: `{"title":"unrelated plan","tasks":[{"title":"unrelated a"},{"title":"unrelated b","after":["unrelated a"]}]}`, Dir: tw.root})
@@ -537,6 +542,10 @@ func TestC17(t *testing.T) {
 			}
 			if st.Body != nil {
 				curBody = st.Body
+			}
+			if n > 1 && pct(rt, 25, "redate") {
+				steps = append(steps, textStep{Kind: "redate"})
+				classSet["edit-after-a-future-dated-edit"] = true
 			}
 			steps = append(steps, st)
 		}
